@@ -141,12 +141,60 @@ Definition save_flat (w : st) (ws : nat) (k : kind) (u : nat) : st :=
   then set_flat w ws (flat w ws ++ [(kind_idx k, u)]) else w.
 
 (* constructor of an entity / property group: allocate, attach to the parent, THEN register, then store *)
-Definition construct (w : st) (ws : nat) (k : kind) (cls par u ty : nat) (props : list nat) : st * outcome * nat :=
+(* Workspace.get_entity(uid) = find_group or find_data or find_object or find_property_group (short-circuit) *)
+Definition find_in (w : st) (ws : nat) (k : kind) (u : nat) : st * option nat :=
+  let (d, r) := get_clean_ref (alive w) (R w ws k) u in (set_R w ws k d, r).
+
+Definition get_entity (w : st) (ws u : nat) : st * option nat :=
+  let (w1, r1) := find_in w ws KGroup u in
+  match r1 with Some x => (w1, Some x) | None =>
+  let (w2, r2) := find_in w1 ws KData u in
+  match r2 with Some x => (w2, Some x) | None =>
+  let (w3, r3) := find_in w2 ws KObject u in
+  match r3 with Some x => (w3, Some x) | None =>
+  find_in w3 ws KPG u end end end.
+
+(* Entity.metadata getter (reached from H5Writer.write_properties when an entity is stored, and from get_attributes when
+   it is copied): Workspace.fetch_metadata calls self.get_entity(uid) -- a look-up that cleans dead references *)
+Definition touch_metadata (w : st) (ws : nat) (k : kind) (u : nat) : st :=
+  if kidx_storable k then fst (get_entity w ws u) else w.
+
+(* types die with the last instance that references them *)
+Definition type_orphan (w : st) (dd : list nat) (t : nat) : bool :=
+  kind_eqb (ekind (E w t)) KType
+  && negb (existsb (fun e => negb (memb e dd) && negb (kind_eqb (ekind (E w e)) KType) && Nat.eqb (etype (E w e)) t
+                             && negb (kind_eqb (ekind (E w e)) KData) && negb (kind_eqb (ekind (E w e)) KPG))
+                   (seq 0 (n w))).
+
+
+(* instances [es] lose their last strong reference: they die, and so do the types nobody alive references any more *)
+Definition kill (w : st) (es : list nat) : st :=
+  let dd := dead w ++ filter (fun e => negb (memb e (dead w))) es in
+  let dt := filter (fun t => negb (memb t dd) && type_orphan w dd t) (seq 0 (n w)) in
+  set_dead w (dd ++ dt).
+
+(* [rollback c] = the checked tree undoes the parent assignment when registration is refused
+   (fixes/C06-refused-creation-rollback.patch; found by a behavioural probe on every run) *)
+Record cfg := { rollback : bool }.
+Definition pinned : cfg := {| rollback := false |}.
+Definition repaired : cfg := {| rollback := true |}.
+
+Definition remove_one (x : nat) (l : list nat) : list nat := filter (fun y => negb (Nat.eqb y x)) l.
+
+Definition construct (c : cfg) (w : st) (ws : nat) (k : kind) (cls par u ty : nat) (props : list nat) : st * outcome * nat :=
   let (w1, x) := alloc w (blank u k ws cls par ty) in
   let w2 := add_child w1 par x in
   match insert_once (alive w2) (R w2 ws k) u x with
-  | None => (w2, Refused, x)
-  | Some d => let w3 := upd (set_R w2 ws k d) x (fun r => with_reg r props) in (save_flat w3 ws k u, Ok, x)
+  | None =>
+      (* RuntimeError: the instance survives only if its parent took it (and keeps it) *)
+      let w2' := if rollback c then upd w2 par (fun r => with_ch r (remove_one x (ech r)) (remove_one x (epgs r))) else w2 in
+      (if memb x (ech (E w2' par)) then w2' else kill w2' [x], Refused, x)
+  | Some d =>
+      let w3 := upd (set_R w2 ws k d) x (fun r => with_reg r props) in
+      let w4 := touch_metadata (save_flat w3 ws k u) ws k u in
+      (* ObjectBase.add_children refuses a child whose uid is already among the children: nobody references the new
+         instance once the call returns (the driver keeps only what it can reach) *)
+      (if memb x (ech (E w4 par)) then w4 else kill w4 [x], Ok, x)
   end.
 
 (* EntityType.find_or_create(workspace, uid = default_type_uid(class)) *)
@@ -162,19 +210,6 @@ Definition find_or_create_type (w : st) (ws cls : nat) : st * nat :=
       | None => (w2, t)        (* cannot happen: the entry was just cleaned *)
       end
   end.
-
-(* Workspace.get_entity(uid) = find_group or find_data or find_object or find_property_group (short-circuit) *)
-Definition find_in (w : st) (ws : nat) (k : kind) (u : nat) : st * option nat :=
-  let (d, r) := get_clean_ref (alive w) (R w ws k) u in (set_R w ws k d, r).
-
-Definition get_entity (w : st) (ws u : nat) : st * option nat :=
-  let (w1, r1) := find_in w ws KGroup u in
-  match r1 with Some x => (w1, Some x) | None =>
-  let (w2, r2) := find_in w1 ws KData u in
-  match r2 with Some x => (w2, Some x) | None =>
-  let (w3, r3) := find_in w2 ws KObject u in
-  match r3 with Some x => (w3, Some x) | None =>
-  find_in w3 ws KPG u end end end.
 
 Definition take_fresh (w : st) : st * nat :=
   ({| n := n w; E := E w; dead := dead w; R := R w; flat := flat w; fresh := S (fresh w) |}, fresh w).
@@ -202,15 +237,16 @@ Definition pick_uid (w : st) (u : uspec) : st * nat :=
 Definition usable (w : st) (e : nat) (k : kind) : bool := Nat.ltb e (n w) && alive w e && kind_eqb (ekind (E w e)) k.
 
 (* copy of the data children of an object, building children_map *)
-Fixpoint copy_children (w : st) (ws x' : nat) (cs : list nat) (cmap : dict) : st * outcome * dict :=
+Fixpoint copy_children (cf : cfg) (w : st) (ws x' : nat) (cs : list nat) (cmap : dict) : st * outcome * dict :=
   match cs with
   | [] => (w, Ok, cmap)
   | c :: r =>
-      if kind_eqb (ekind (E w c)) KPG then copy_children w ws x' r cmap
+      if kind_eqb (ekind (E w c)) KPG then copy_children cf w ws x' r cmap
       else
-        let (w1, u') := copy_uid w ws (euid (E w c)) in
-        match construct w1 ws KData 3 x' u' 0 [] with
-        | (w2, Ok, _) => copy_children w2 ws x' r (dset cmap (euid (E w c)) u')
+        let w0 := touch_metadata w (ews (E w c)) KData (euid (E w c)) in          (* get_attributes(child) *)
+        let (w1, u') := copy_uid w0 ws (euid (E w c)) in
+        match construct cf w1 ws KData 3 x' u' 0 [] with
+        | (w2, Ok, _) => copy_children cf w2 ws x' r (dset cmap (euid (E w c)) u')
         | (w2, o, _) => (w2, o, cmap)
         end
   end.
@@ -222,7 +258,7 @@ Fixpoint map_props (cmap : dict) (ps : list nat) : option (list nat) :=
   end.
 
 (* Workspace.copy_property_groups *)
-Fixpoint copy_pgs (w : st) (ws x' : nat) (gs : list nat) (cmap : dict) : st * outcome :=
+Fixpoint copy_pgs (c : cfg) (w : st) (ws x' : nat) (gs : list nat) (cmap : dict) : st * outcome :=
   match gs with
   | [] => (w, Ok)
   | g :: r =>
@@ -231,35 +267,36 @@ Fixpoint copy_pgs (w : st) (ws x' : nat) (gs : list nat) (cmap : dict) : st * ou
       | Some ps =>
           let (w1, f) := find_in w ws KPG (euid (E w g)) in
           let (w2, u') := match f with None => (w1, euid (E w g)) | Some _ => take_fresh w1 end in
-          match construct w2 ws KPG 4 x' u' 0 ps with
-          | (w3, Ok, _) => copy_pgs w3 ws x' r cmap
+          match construct c w2 ws KPG 4 x' u' 0 ps with
+          | (w3, Ok, _) => copy_pgs c w3 ws x' r cmap
           | (w3, o, _) => (w3, o)
           end
       end
   end.
 
-Definition do_copy (w : st) (e target : nat) : st * outcome :=
-  let ws := ews (E w target) in
+Definition do_copy (c : cfg) (w0 : st) (e target : nat) : st * outcome :=
+  let ws := ews (E w0 target) in
+  let w := touch_metadata w0 (ews (E w0 e)) (ekind (E w0 e)) (euid (E w0 e)) in   (* get_attributes(entity) *)
   match ekind (E w e) with
   | KData =>
       if usable w target KObject then
         let (w1, u') := copy_uid w ws (euid (E w e)) in
-        let '(w2, o, _) := construct w1 ws KData 3 target u' 0 [] in (w2, o)
+        let '(w2, o, _) := construct c w1 ws KData 3 target u' 0 [] in (w2, o)
       else (w, BadOp)
   | KGroup =>
       if usable w target KGroup then
         let (w1, u') := copy_uid w ws (euid (E w e)) in
         let (w2, t) := find_or_create_type w1 ws (ecls (E w e)) in
-        let '(w3, o, _) := construct w2 ws KGroup (ecls (E w e)) target u' t [] in (w3, o)
+        let '(w3, o, _) := construct c w2 ws KGroup (ecls (E w e)) target u' t [] in (w3, o)
       else (w, BadOp)
   | KObject =>
       if usable w target KGroup then
         let (w1, u') := copy_uid w ws (euid (E w e)) in
         let (w2, t) := find_or_create_type w1 ws (ecls (E w e)) in
-        match construct w2 ws KObject (ecls (E w e)) target u' t [] with
+        match construct c w2 ws KObject (ecls (E w e)) target u' t [] with
         | (w3, Ok, x') =>
-            match copy_children w3 ws x' (ech (E w3 e)) [] with
-            | (w4, Ok, cmap) => copy_pgs w4 ws x' (epgs (E w4 e)) cmap
+            match copy_children c w3 ws x' (ech (E w3 e)) [] with
+            | (w4, Ok, cmap) => copy_pgs c w4 ws x' (epgs (E w4 e)) cmap
             | (w4, o, _) => (w4, o)
             end
         | (w3, o, _) => (w3, o)
@@ -277,15 +314,6 @@ Fixpoint attached_f (f : nat) (w : st) (x : nat) : bool :=
   end.
 Definition attached (w : st) (x : nat) : bool := Nat.ltb x (n w) && attached_f (S (n w)) w x.
 
-Definition remove_one (x : nat) (l : list nat) : list nat := filter (fun y => negb (Nat.eqb y x)) l.
-
-(* types die with the last instance that references them *)
-Definition type_orphan (w : st) (dd : list nat) (t : nat) : bool :=
-  kind_eqb (ekind (E w t)) KType
-  && negb (existsb (fun e => negb (memb e dd) && negb (kind_eqb (ekind (E w e)) KType) && Nat.eqb (etype (E w e)) t
-                             && negb (kind_eqb (ekind (E w e)) KData) && negb (kind_eqb (ekind (E w e)) KPG))
-                   (seq 0 (n w))).
-
 Definition sweep (w : st) (ws : nat) (k : kind) : st :=
   let d := R w ws k in
   let deadkeys := map fst (filter (fun p => negb (alive w (snd p))) d) in
@@ -294,7 +322,7 @@ Definition sweep (w : st) (ws : nat) (k : kind) : st :=
   then set_flat w1 ws (filter (fun p => negb (Nat.eqb (fst p) (kind_idx k) && memb (snd p) deadkeys)) (flat w1 ws))
   else w1.
 
-Definition step (w : st) (a : op) : st * outcome :=
+Definition step (c : cfg) (w : st) (a : op) : st * outcome :=
   match a with
   | OCreate ws isobj parent u =>
       if usable w parent KGroup && Nat.eqb (ews (E w parent)) ws then
@@ -302,21 +330,21 @@ Definition step (w : st) (a : op) : st * outcome :=
         let cls := if isobj then 2 else 1 in
         let (w0, uid) := pick_uid w u in
         let (w1, t) := find_or_create_type w0 ws cls in
-        let '(w2, o, _) := construct w1 ws k cls parent uid t [] in (w2, o)
+        let '(w2, o, _) := construct c w1 ws k cls parent uid t [] in (w2, o)
       else (w, BadOp)
   | OData obj u =>
       if usable w obj KObject then
         let (w0, uid) := pick_uid w u in
-        let '(w2, o, _) := construct w0 (ews (E w obj)) KData 3 obj uid 0 [] in (w2, o)
+        let '(w2, o, _) := construct c w0 (ews (E w obj)) KData 3 obj uid 0 [] in (w2, o)
       else (w, BadOp)
   | OPg obj ds u =>
       if usable w obj KObject then
         let (w0, uid) := pick_uid w u in
         let ps := map (fun d => euid (E w d)) (filter (fun d => memb d (ech (E w obj)) && kind_eqb (ekind (E w d)) KData) ds) in
-        let '(w2, o, _) := construct w0 (ews (E w obj)) KPG 4 obj uid 0 ps in (w2, o)
+        let '(w2, o, _) := construct c w0 (ews (E w obj)) KPG 4 obj uid 0 ps in (w2, o)
       else (w, BadOp)
   | OCopy e target =>
-      if Nat.ltb e (n w) && alive w e && Nat.ltb target (n w) && alive w target then do_copy w e target else (w, BadOp)
+      if Nat.ltb e (n w) && alive w e && Nat.ltb target (n w) && alive w target then do_copy c w e target else (w, BadOp)
   | ORemove e =>
       (* ws.remove_entity of a childless entity: detach, delete the flat node, collect(), sweep the dead types *)
       if attached w e && alive w e && negb (Nat.eqb e 1) && negb (Nat.eqb e 3) && (match ech (E w e) with [] => true | _ => false end)
@@ -328,10 +356,11 @@ Definition step (w : st) (a : op) : st * outcome :=
         (sweep w2 ws KType, Ok)
       else (w, BadOp)
   | ODie es =>
-      if forallb (fun e => Nat.ltb e (n w) && negb (attached w e) && negb (kind_eqb (ekind (E w e)) KType)) es then
-        let dd := dead w ++ filter (fun e => negb (memb e (dead w))) es in
-        let dt := filter (fun t => negb (memb t dd) && type_orphan w dd t) (seq 0 (n w)) in
-        (set_dead w (dd ++ dt), Ok)
+      (* an instance can only die when nothing alive outside the list points to it (a child keeps its _parent) *)
+      if forallb (fun e => Nat.ltb e (n w) && negb (attached w e) && negb (kind_eqb (ekind (E w e)) KType)) es
+         && negb (existsb (fun c => negb (memb c es) && negb (memb c (dead w)) && negb (kind_eqb (ekind (E w c)) KType)
+                                    && memb (epar (E w c)) es) (seq 0 (n w))) then
+        (kill w es, Ok)
       else (w, BadOp)
   | OList ws k =>
       if kind_eqb k KPG then (w, BadOp) else (sweep w ws k, Ok)
@@ -342,10 +371,10 @@ Definition step (w : st) (a : op) : st * outcome :=
       else (w, BadOp)
   end.
 
-Fixpoint run (w : st) (h : list op) : st :=
+Fixpoint run (c : cfg) (w : st) (h : list op) : st :=
   match h with
   | [] => w
-  | a :: r => run (fst (step w a)) r
+  | a :: r => run c (fst (step c w a)) r
   end.
 
 (* two workspaces, each with its RootGroup type (instances 0, 2) and root (instances 1, 3) *)
@@ -397,10 +426,10 @@ Definition observe (w : st) (o : outcome) : list nat :=
   ++ flat_map (fun ws => flat_map (obs_reg w ws) all_kinds) [0; 1]
   ++ flat_map (fun ws => flat_map (obs_flat w ws) [KGroup; KObject; KData]) [0; 1].
 
-Fixpoint run_obs (w : st) (h : list op) : list (list nat) * st :=
+Fixpoint run_obs (c : cfg) (w : st) (h : list op) : list (list nat) * st :=
   match h with
   | [] => ([], w)
-  | a :: r => let (w1, o) := step w a in let (l, w2) := run_obs w1 r in (observe w1 o :: l, w2)
+  | a :: r => let (w1, o) := step c w a in let (l, w2) := run_obs c w1 r in (observe w1 o :: l, w2)
   end.
 
 (* Workspace.close: save_entity(root, add_children=True) stores every attached entity whose node is missing *)
@@ -423,6 +452,6 @@ Fixpoint digest_from (h : N) (l : list nat) {struct l} : N :=
   end.
 Definition digest (l : list nat) : N := digest_from 7%N l.
 
-Definition agree (h : list op) (digests : list N) (final : list nat) : bool :=
-  let (l, w) := run_obs init h in
+Definition agree (c : cfg) (h : list op) (digests : list N) (final : list nat) : bool :=
+  let (l, w) := run_obs c init h in
   list_eqb N.eqb (map digest l) digests && list_eqb Nat.eqb (final_trace w) final.
